@@ -22,6 +22,29 @@ def run(ctx, F, cg):
     sr.removal_by_id(ctx, F, cg, "R06g")
     sr.endpoints_checked(ctx, F, cg, "R06h")
     sr.direction_coherence(ctx, F, cg, "R06i")
+    ctx.rule("R06j", "finish_bulk_load rebuilds what stub loads skip on every path: compaction, the relationship-type index and the catalog are reached unconditionally from its entry (a rebuild made conditional on 'the buffer had something to compact' is skipped when the buffer was compacted earlier, and by-type views then miss every stub relationship)")
+    fb = sm.fn_of(F, "finish_bulk_load")
+    if fb is None:
+        ctx.anchor_failure("R06j", GS + "::finish_bulk_load")
+    else:
+        fbb = Body(F.mir(fb["path"]), fb)
+        ctx.saw_fn(fb["path"]); ctx.saw_calls(len(fbb.calls()))
+        rets = fbb.ret_blocks()
+        for need in ("rebuild_edge_type_index", "rebuild_catalog"):
+            cs = {c.bb for c in fbb.calls() if c.path.endswith("GraphStore::" + need)}
+            if not cs:
+                ctx.violation("R06j", "finish_bulk_load|%s|never" % need, where(fb), "finish_bulk_load never calls %s" % need)
+            elif all(fbb.must_pass(0, rb, cs) for rb in rets):
+                ctx.ok("R06j", "finish_bulk_load|" + need, "called on every path")
+            else:
+                ctx.violation("R06j", "finish_bulk_load|%s|conditional" % need, where(fb), "finish_bulk_load can return without calling %s: relationships loaded as stubs stay out of the views it rebuilds" % need)
+        comp = {c.bb for c in fbb.calls() if c.path.rsplit("::", 1)[-1] in ("compact_adjacency", "compact_adjacency_if_needed")}
+        if comp and all(fbb.must_pass(0, rb, comp) for rb in rets):
+            ctx.ok("R06j", "finish_bulk_load|compaction", "compaction reached on every path")
+        else:
+            ctx.violation("R06j", "finish_bulk_load|compaction|conditional", where(fb), "finish_bulk_load can return without compacting the write buffer")
+    ctx.rule("R06k", "(shared with C05) a store mutator that fails has changed nothing — in particular it has not handed an id back to the allocator: an id freed by a failed delete is allocated twice")
+    sr.validate_then_mutate(ctx, F, cg, "R06k", kinds=("node-add", "node-kill", "edge-add", "edge-kill"), floor=5)
     # ---- R06f ------------------------------------------------------------------------------------------
     un = sm.unclassified_mutators(F, cg)
     for name, w, r in un:
